@@ -19,8 +19,8 @@ Hypothesis g_closed : forall x y, S x -> S y -> S (g x y).
 
 Theorem sql_changes_fault_spec now sc tb from to vsf tsf vst tst b :
   sc_tb sc = Some tb ->
-  versions_ok_in cfgr S b [PMerged; PCur] (apply_order_multi [] from) vsf tsf ->
-  versions_ok_in cfgr S b [PMerged; PCur] (apply_order_multi [] to) vst tst ->
+  versions_ok_in cfgr S b [PCur; PMerged] (apply_order_multi [] from) vsf tsf ->
+  versions_ok_in cfgr S b [PCur; PMerged] (apply_order_multi [] to) vst tst ->
   spec oeq plan b (sql_changes cfgr now sc from to)
        (fun res => exists tf tt, view_fold cfgr tsf = Some tf /\ view_fold cfgr tst = Some tt /\
                                  res = changes_rows cfgr (tb_ncols tb) tt tf).
